@@ -9,11 +9,12 @@ package prebuild
 
 // getFamily searches famillyDists in map order and returns from inside the range: the
 // result does not depend on the iteration order because the distribution lists are
-// pairwise disjoint (checked on the table built by the real init code on every run).
+// pairwise disjoint, and every supported distribution (key of supportedDists) is in exactly
+// one of them (both checked on the tables built by the real init code on every run).
 //@ func getFamily
 //@   opt prop=C03,C02
 //@   trusted
-//@   opt maprange1=disjoint famillyDists
+//@   opt maprange1=disjoint famillyDists covers supportedDists
 
 // getDistribution searches supportedDists in map order and returns from inside the range;
 // it only gets that far when the DISTRIBUTION environment variable is unset. Every build
